@@ -2698,6 +2698,9 @@ class Interp:
             return Alt([self.apply(x, pos, kwargs, n, env) for x in fv.vals])
         if isinstance(fv, ObjV) and fv.tag == "itemgetter" and len(pos) == 1 and fv.attrs.get("k") is not None:
             return _unbox_str(self.subscript(pos[0], [("int", fv.attrs["k"])], n))
+        if isinstance(fv, ObjV) and fv.tag == "itemgetter" and len(pos) == 1 and fv.attrs.get("keys"):
+            got = [_unbox_str(self.subscript(pos[0], [k_], n)) for k_ in fv.attrs["keys"]]
+            return got[0] if len(got) == 1 else Seq(got, "tuple")
         if isinstance(fv, ObjV) and fv.tag == "attrgetter" and len(pos) == 1 and fv.attrs.get("k"):
             return self.attribute(pos[0], fv.attrs["k"], n, env)
         if isinstance(fv, FuncV):
